@@ -27,6 +27,11 @@ def check(ctx):
     # makes every decode fail: the design space graph contains only what the start nodes derive (finding F23)
     from . import c02 as _c02
     _c02.start_closure(ctx)
+    # applying a choice wires the selected option to every node that derives the choice; order-sensitive constraints
+    # are stored in the canonical choice order both the graph and the analyzers use
+    _c02.apply_selection_shape(ctx)
+    from . import c13 as _c13
+    _c13.pre_removal(ctx)
     # the tables the decode relies on (scenario index sets, caches) are not corrupted by earlier decodes
     from ..rules import persist
     ps = persist.Persist(ctx, [ctx.fn(f'{GP}.get_graph')], fns)
